@@ -56,7 +56,7 @@ def segments(schema: Schema, t, v):
         w = enum_width(schema.enum_max(t[1]))
         return [(_bv(v, w), w)]
     if k == "str":
-        segs = [(_bv(len(v), 32), 32)]
+        segs = [(_bv(getattr(v, "announced", len(v)), 32), 32)]
         for c in v:
             segs.append((_bv(c if not isinstance(c, str) else ord(c), 8), 8))
         return segs
@@ -67,7 +67,7 @@ def segments(schema: Schema, t, v):
             out += segments(schema, t[1], x)
         return out
     if k == "dyn":
-        out = [(_bv(len(v), 32), 32)]
+        out = [(_bv(getattr(v, "announced", len(v)), 32), 32)]
         for x in v:
             out += segments(schema, t[1], x)
         return out
